@@ -940,4 +940,129 @@ theorem finish_spec (st : St) (hI : Inv st) (bl : List Blk) (hbl : AllOk bl) (ho
   have := finishLoop_encAll st.cfg bl.length bl hbl []
   simpa using this
 
+/-! ### the appended blocks, index by index (link between the ghost block lists and the reader's result) -/
+
+/-- `runBlks` lists, per operation, the blocks appended from the state reached by the earlier operations -/
+theorem runBlks_getElem (ops : List Op) : ∀ (st : St) (i : Nat) (h : i < ops.length) (h' : i < (runBlks st ops).length),
+    (runBlks st ops)[i] = stepBlks (run st (ops.take i)).1 ops[i] := by
+  induction ops with
+  | nil => intro st i h; simp at h
+  | cons op ops ih =>
+    intro st i h h'
+    cases i with
+    | zero => rfl
+    | succ i =>
+      simp only [runBlks, List.getElem_cons_succ, List.take_succ_cons, run_cons]
+      exact ih (step st op).1 i (by simpa using h) (by simpa [runBlks] using h')
+
+/-- block `k` of a `write_all` exists iff `k * block_size` is inside the data -/
+theorem allBlks_length_iff (cfg : Cfg) (hps : 1 ≤ cfg.ps) (nf : Bool) (fuel : Nat) :
+    ∀ (d : List UInt8) (a no : Nat), d.length ≤ fuel → ∀ k,
+      k < (allBlks cfg nf fuel d a no).length ↔ k * cfg.ps < d.length := by
+  induction fuel with
+  | zero =>
+    intro d a no hf k
+    have : d.length = 0 := by omega
+    simp [allBlks, this]
+  | succ f ih =>
+    intro d a no hf k
+    by_cases hd : d = []
+    · subst hd; simp [allBlks]
+    · have hemp : d.isEmpty = false := by simpa using hd
+      have hdl : 0 < d.length := List.length_pos_iff.mpr hd
+      have hdrop : (d.drop cfg.ps).length = d.length - cfg.ps := List.length_drop
+      simp only [allBlks, hemp, Bool.false_eq_true, if_false, List.length_cons]
+      cases k with
+      | zero => simp; exact hdl
+      | succ k =>
+        have := ih (d.drop cfg.ps) (a + cfg.ps) (no + 1) (by omega) k
+        rw [Nat.succ_mul]
+        constructor
+        · intro h; have := this.mp (by omega); omega
+        · intro h; have := this.mpr (by omega); omega
+
+/-- block `k` of a `write_all`: target `addr + k·ps`, the `k`-th chunk of the data, payload size `ps` except
+for the last block, whose payload size is the remaining length rounded up to the alignment, number `no + k` -/
+theorem allBlks_getElem (cfg : Cfg) (nf : Bool) (fuel : Nat) :
+    ∀ (d : List UInt8) (a no : Nat) (k : Nat) (hk : k < (allBlks cfg nf fuel d a no).length),
+      ((allBlks cfg nf fuel d a no)[k]).addr = a + k * cfg.ps ∧
+      ((allBlks cfg nf fuel d a no)[k]).data = (d.drop (k * cfg.ps)).take cfg.ps ∧
+      ((allBlks cfg nf fuel d a no)[k]).blen =
+        (if cfg.ps < d.length - k * cfg.ps then cfg.ps else roundUp (d.length - k * cfg.ps) cfg.al) ∧
+      ((allBlks cfg nf fuel d a no)[k]).nf = nf ∧
+      ((allBlks cfg nf fuel d a no)[k]).no = no + k := by
+  induction fuel with
+  | zero => intro d a no k hk; simp [allBlks] at hk
+  | succ f ih =>
+    intro d a no k hk
+    by_cases hd : d = []
+    · subst hd; simp [allBlks] at hk
+    · have hemp : d.isEmpty = false := by simpa using hd
+      have heq : allBlks cfg nf (f + 1) d a no =
+          ⟨a, d.take cfg.ps, if cfg.ps < d.length then cfg.ps else roundUp d.length cfg.al, nf, no⟩ ::
+            allBlks cfg nf f (d.drop cfg.ps) (a + cfg.ps) (no + 1) := by
+        simp only [allBlks, hemp, Bool.false_eq_true, if_false]
+      have hdrop : (d.drop cfg.ps).length = d.length - cfg.ps := List.length_drop
+      cases k with
+      | zero =>
+        simp [heq]
+      | succ k =>
+        have hk' : k < (allBlks cfg nf f (d.drop cfg.ps) (a + cfg.ps) (no + 1)).length := by
+          rw [heq] at hk; simpa using hk
+        obtain ⟨i1, i2, i3, i4, i5⟩ := ih (d.drop cfg.ps) (a + cfg.ps) (no + 1) k hk'
+        simp only [heq, List.getElem_cons_succ]
+        have e1 : (k + 1) * cfg.ps = cfg.ps + k * cfg.ps := by rw [Nat.succ_mul]; omega
+        have e2 : d.length - cfg.ps - k * cfg.ps = d.length - (k + 1) * cfg.ps := by omega
+        refine ⟨by rw [i1]; omega, ?_, ?_, i4, by rw [i5]; omega⟩
+        · rw [i2, List.drop_drop, e1]
+        · rw [i3, hdrop, e2]
+
+theorem allBlks_blen_pos (cfg : Cfg) (hv : cfg.valid) (nf : Bool) (fuel : Nat) :
+    ∀ (d : List UInt8) (a no : Nat), ∀ b ∈ allBlks cfg nf fuel d a no, 1 ≤ b.blen := by
+  obtain ⟨hps1, _, hal1, _⟩ := hv
+  induction fuel with
+  | zero => intro d a no b hb; simp [allBlks] at hb
+  | succ f ih =>
+    intro d a no b hb
+    by_cases hd : d = []
+    · subst hd; simp [allBlks] at hb
+    · have hemp : d.isEmpty = false := by simpa using hd
+      have hdl : 0 < d.length := List.length_pos_iff.mpr hd
+      simp only [allBlks, hemp, Bool.false_eq_true, if_false] at hb
+      rcases List.mem_cons.mp hb with h | h
+      · subst h
+        simp only
+        split
+        · omega
+        · have := roundUp_ge d.length cfg.al (by omega); omega
+      · exact ih _ _ _ b h
+
+/-- all blocks of an accepted `write_all` lie inside `[addr, addr + aligned length)` -/
+theorem allBlks_range (cfg : Cfg) (hv : cfg.valid) (nf : Bool) (fuel : Nat) :
+    ∀ (d : List UInt8) (a no : Nat), ∀ b ∈ allBlks cfg nf fuel d a no,
+      a ≤ b.addr ∧ b.addr + b.blen ≤ a + roundUp d.length cfg.al := by
+  obtain ⟨hps1, hps2, hal1, hdiv⟩ := hv
+  induction fuel with
+  | zero => intro d a no b hb; simp [allBlks] at hb
+  | succ f ih =>
+    intro d a no b hb
+    by_cases hd : d = []
+    · subst hd; simp [allBlks] at hb
+    · have hemp : d.isEmpty = false := by simpa using hd
+      have hru := roundUp_ge d.length cfg.al (by omega)
+      simp only [allBlks, hemp, Bool.false_eq_true, if_false] at hb
+      rcases List.mem_cons.mp hb with h | h
+      · subst h
+        simp only
+        split <;> omega
+      · by_cases hc : cfg.ps < d.length
+        · have hsplit : roundUp d.length cfg.al = cfg.ps + roundUp (d.drop cfg.ps).length cfg.al := by
+            have : d.length = cfg.ps + (d.drop cfg.ps).length := by simp; omega
+            rw [this, roundUp_add _ _ _ (by omega) hdiv]
+          have := ih _ _ _ b h
+          omega
+        · have hnil : d.drop cfg.ps = [] := List.drop_eq_nil_of_le (by omega)
+          rw [hnil, allBlks_nil] at h
+          simp at h
+
 end Trion.Uf2
